@@ -8,7 +8,7 @@ from .. import gen, impl, oracle, ser, stream
 
 ID = "C10"
 LEVEL = "proof"
-PROPS_MODULE = "SymmModel.Props.C10All9"
+PROPS_MODULE = "SymmModel.Props.C10All10"
 THEOREMS = [
     "SymmModel.C10.oddposDag_involutive",
     "SymmModel.C10.Index.conj_conj",
@@ -137,10 +137,23 @@ THEOREMS = [
     "SymmModel.C10.network_norm_ketbra_all_any_mode_oneKet",
     "SymmModel.C10.network_norm_ketbra_all_auto_oneKet",
     "SymmModel.C10.hubHalf_bx_listing",
-    "SymmModel.C10.ketbra_all_vals"
+    "SymmModel.C10.ketbra_all_vals",
+    "SymmModel.C10.tdotF_swap_eqv_merge",
+    "SymmModel.C10.merge_ket_bra_labels",
+    "SymmModel.C10.network_norm_ketfirst_piece",
+    "SymmModel.C10.network_norm_mirror_hub",
+    "SymmModel.C10.network_norm_mirror_all",
+    "SymmModel.C10.network_norm_mirror_all_oneKet",
+    "SymmModel.C10.network_norm_mirror_pair",
+    "SymmModel.C10.network_norm_mirror_tri_hub",
+    "SymmModel.C10.network_norm_mirror_tri",
+    "SymmModel.C10.network_norm_mirror_tri_oneKet",
+    "SymmModel.C10.mirror_vals",
+    "SymmModel.C10.mirror_tri_vals",
+    "SymmModel.C10.chain3_nested_vals"
 ]
-LEAN_FILES = ["SymmModel.Props.C10", "SymmModel.Proofs.LazyLemmas", "SymmModel.Props.C10b", "SymmModel.Proofs.NormLemmas", "SymmModel.Props.C10c", "SymmModel.Props.C10All2", "SymmModel.Proofs.NormNet1", "SymmModel.Proofs.NormNet2", "SymmModel.Proofs.NormNet3", "SymmModel.Proofs.NormNet4", "SymmModel.Proofs.NormNet5", "SymmModel.Proofs.NormNet6", "SymmModel.Proofs.NormNetLabels", "SymmModel.Props.C10d", "SymmModel.Props.C10All3", "SymmModel.Proofs.NormNet7", "SymmModel.Proofs.NormNet8", "SymmModel.Proofs.NormNet9", "SymmModel.Proofs.NormNet10", "SymmModel.Proofs.NormNet11", "SymmModel.Proofs.NormNet12", "SymmModel.Props.C10e", "SymmModel.Props.C10All4", "SymmModel.Proofs.NormNet13", "SymmModel.Proofs.NormNet14", "SymmModel.Proofs.NormNet15", "SymmModel.Proofs.NormNet16", "SymmModel.Props.C10f", "SymmModel.Props.C10All5", "SymmModel.Proofs.NormNet17", "SymmModel.Proofs.NormNet18", "SymmModel.Proofs.NormNet19", "SymmModel.Proofs.NormNet20", "SymmModel.Props.C10g", "SymmModel.Props.C10All6", "SymmModel.Proofs.NormNet21", "SymmModel.Proofs.NormNet22", "SymmModel.Proofs.NormNet23", "SymmModel.Proofs.NormNet24", "SymmModel.Props.C10h", "SymmModel.Proofs.NetNorm1", "SymmModel.Proofs.NetNorm2", "SymmModel.Proofs.NetNorm3", "SymmModel.Proofs.NetNorm4", "SymmModel.Proofs.NetNorm5", "SymmModel.Proofs.NetNorm6", "SymmModel.Proofs.NetNorm7", "SymmModel.Proofs.NetNorm8", "SymmModel.Proofs.NetNorm9", "SymmModel.Proofs.NetNorm10", "SymmModel.Proofs.NetNorm11", "SymmModel.Proofs.NetNorm12", "SymmModel.Props.C10i", "SymmModel.Proofs.NetNormK1", "SymmModel.Proofs.NetNormK2", "SymmModel.Proofs.NetNormK3", "SymmModel.Props.C10j", "SymmModel.Proofs.NetNormL1", "SymmModel.Proofs.NetNormL2", "SymmModel.Proofs.NetNormL3", "SymmModel.Proofs.NetNormL4"]
-PLANNED = ["mirror images of the ket-bra-first routes with the ket operand first (a.a-bar, b.b-bar)", "the squared-norm value for more than one label per tensor without the decidable label checks netLabelsB / ketBraLabelsB (agreement of the six hub routes is check-free", "<= 4 labels proved symbolically in C04i)", "nested routes that absorb the bra tensors of a chain one at a time", "fused/auto mode for chain bracketings other than left-nested"]
+LEAN_FILES = ["SymmModel.Props.C10", "SymmModel.Proofs.LazyLemmas", "SymmModel.Props.C10b", "SymmModel.Proofs.NormLemmas", "SymmModel.Props.C10c", "SymmModel.Props.C10All2", "SymmModel.Proofs.NormNet1", "SymmModel.Proofs.NormNet2", "SymmModel.Proofs.NormNet3", "SymmModel.Proofs.NormNet4", "SymmModel.Proofs.NormNet5", "SymmModel.Proofs.NormNet6", "SymmModel.Proofs.NormNetLabels", "SymmModel.Props.C10d", "SymmModel.Props.C10All3", "SymmModel.Proofs.NormNet7", "SymmModel.Proofs.NormNet8", "SymmModel.Proofs.NormNet9", "SymmModel.Proofs.NormNet10", "SymmModel.Proofs.NormNet11", "SymmModel.Proofs.NormNet12", "SymmModel.Props.C10e", "SymmModel.Props.C10All4", "SymmModel.Proofs.NormNet13", "SymmModel.Proofs.NormNet14", "SymmModel.Proofs.NormNet15", "SymmModel.Proofs.NormNet16", "SymmModel.Props.C10f", "SymmModel.Props.C10All5", "SymmModel.Proofs.NormNet17", "SymmModel.Proofs.NormNet18", "SymmModel.Proofs.NormNet19", "SymmModel.Proofs.NormNet20", "SymmModel.Props.C10g", "SymmModel.Props.C10All6", "SymmModel.Proofs.NormNet21", "SymmModel.Proofs.NormNet22", "SymmModel.Proofs.NormNet23", "SymmModel.Proofs.NormNet24", "SymmModel.Props.C10h", "SymmModel.Proofs.NetNorm1", "SymmModel.Proofs.NetNorm2", "SymmModel.Proofs.NetNorm3", "SymmModel.Proofs.NetNorm4", "SymmModel.Proofs.NetNorm5", "SymmModel.Proofs.NetNorm6", "SymmModel.Proofs.NetNorm7", "SymmModel.Proofs.NetNorm8", "SymmModel.Proofs.NetNorm9", "SymmModel.Proofs.NetNorm10", "SymmModel.Proofs.NetNorm11", "SymmModel.Proofs.NetNorm12", "SymmModel.Props.C10i", "SymmModel.Proofs.NetNormK1", "SymmModel.Proofs.NetNormK2", "SymmModel.Proofs.NetNormK3", "SymmModel.Props.C10j", "SymmModel.Proofs.NetNormL1", "SymmModel.Proofs.NetNormL2", "SymmModel.Proofs.NetNormL3", "SymmModel.Proofs.NetNormL4", "SymmModel.Props.C10k", "SymmModel.Proofs.NetNormM1", "SymmModel.Proofs.NetNormM2", "SymmModel.Proofs.NetNormM3"]
+PLANNED = ["nested routes that absorb the bra tensors of a three-tensor chain one at a time (values checked by kernel evaluation: chain3_nested_vals", "a general proof needs an S7 up to label lists)", "the squared-norm value for more than one label per tensor without the decidable label checks netLabelsB / ketBraLabelsB (agreement of the hub routes is check-free", "<= 4 labels proved symbolically in C04i)", "fused/auto mode for the mirror routes and for chain bracketings other than left-nested"]
 RULE = ("random fermionic arrays (all symmetries, every dualness pattern, even/odd charge with labels, pending signs, "
         "real/complex): <x|x> through conj (all-ket or phase_dual) in both operand orders equals the exact integer "
         "sum |x|^2; conj/dagger involutions; dagger == transpose(conj) for both settings of phase_dual; 2-3 tensor "
